@@ -697,7 +697,14 @@ impl<C: Config, Q: Query> Snapshot<C, Q> {
         #[cfg(feature = "verif_hooks")]
         crate::engine::verif::yield_point("clean::after_upgrade").await;
 
+        // keep input sessions out until the guarded block has finished, even
+        // when the caller has been dropped
+        let active_computation_guard =
+            caller_information.clone_active_computation_guard();
+
         async move {
+            let _active_computation_guard = active_computation_guard;
+
             self.clean_query(clean_edges, new_tfc, timsestamp).await;
 
             lock_guard.done();
